@@ -245,7 +245,7 @@ def run(ctx):
     while done < n and ctx.alive():
         cls, text, num, unit = gen_case(rng)
         ref = rng.choice((None, None, 100, 297.0, 1056, 0.5))
-        default = rng.choice((100, 793.7, 1, 3508))
+        default = rng.choice((100, 793.7, 1, 3508, 0, 0.0, -50, 1e-3))
         ctx.case([cls], text, nontrivial=bool(unit) or num is None)
         ctx.sample({"text": text, "numeral": num, "unit": unit}, tag=cls, per_tag=1)
         one_case(ctx, mon, cls, text, num, unit, ref, default)
